@@ -405,7 +405,7 @@ fn ec_one(path: &[(autosar_data::ElementName, autosar_data_specification::Elemen
                             fn ec_retyped(e: &Element, expect: autosar_data_specification::ElementType, v2: AutosarVersion) -> bool {
                                 if e.element_type() != expect { return true; }
                                 for c in e.sub_elements() {
-                                    match expect.find_sub_element(c.element_name(), v2 as u32) { Some((t, _)) => if ec_retyped(&c, t, v2) { return true; }, None => return true }
+                                    match expect.find_sub_element(c.element_name(), v2 as u32) { Some((t, _)) => if ec_retyped(&c, t, v2) { return true; }, None => {} }
                                 }
                                 false
                             }
